@@ -8,10 +8,27 @@ import itertools
 import random
 import struct
 
+import z3
+
 from . import wire
 
 PROPERTY = 'C01'
-LEVEL = 'exploration'
+LEVEL = 'proof'
+LEVEL_TEXT = ('Clause (iii) of the property (the produced bytes are those of an independent encoder written from the CIP layout tables) is proved '
+              'deductively on the real produce() code for: every scalar TYPE.produce (struct format read from the class constants; little/big endian, '
+              'signed/unsigned, range), BOOL, SSTRING, STRING (truncate / NUL-fill / pad), enip_encode (24-byte header, length == len(payload)), '
+              'EPATH / EPATH_padded / EPATH_single.produce over lists of any length of every segment kind and width (loop invariant over the segment '
+              'layout tables), Logix.produce for all eight Read/Write Tag [Fragmented] request and reply forms, unconnected_send.produce, and the Forward '
+              'Open network connection parameters (encode, decode(encode) == identity, re-encode on small/large switch). Clauses (i)/(ii) '
+              '(parse recovers every field; re-produce regenerates the bytes) run through the DFA interpreter and are checked only on a bounded '
+              'boundary lattice against the reference encoder contracts/wire.py (not counted as proved).')
+LEVEL_NOTE = ('Nested producers inside Logix.produce / unconnected_send.produce (EPATH, typed_data, status) are opaque byte strings there (assumed); '
+              'EPATH.produce itself is proved. Not under contract: status.produce, typed_data.produce, CPF.produce, CIP.produce, send_data/register, '
+              'Object.produce, Connection_Manager.produce, identity/service items (bounded tier only). Floats are bounded-only (T2).')
+TECHNIQUE = 'function-against-spec-function contracts on the real produce() encoders, VCs from the real AST, z3/cvc5; bounded produce/parse/re-produce lattice vs an independent reference encoder'
+TRUSTED = ['T2 struct.pack of integer formats; iso-8859-1 encode is a length-preserving bijection on code points < 256',
+           'assumed: octets_encode is the identity on byte strings; nested producers opaque inside Logix.produce / unconnected_send.produce']
+ASSUMPTIONS = ['canonical domain: symbolic names / links <= 255 bytes, port 1..65535, numeric link 0..255, EPATH <= 255 words']
 
 
 # ------------------------------------------------------------------------------------------------ bounded tier
@@ -376,5 +393,410 @@ def bounded(tier, seed):
                 exhaustive=False, samples=C.samples, violations=C.violations[:20], seed=seed)
 
 
+
+
+# ================================================================================================ proof tier
+from pyvc.spec import Spec, Loop, Custom
+from pyvc.vals import SeqV, IntV, BoolV, RefV, OpaqueV, ConstV, NONE, UnionV, USort, IntSeq, Unsupported
+from . import wire_spec as WS
+
+P = "server/enip/parser.py"
+
+SCALARS = [  # class, bytes, signed, big-endian
+    ('USINT', 1, False, False), ('SINT', 1, True, False), ('UINT', 2, False, False), ('INT', 2, True, False),
+    ('UDINT', 4, False, False), ('DINT', 4, True, False), ('ULINT', 8, False, False), ('LINT', 8, True, False),
+    ('WORD', 2, False, False), ('DWORD', 4, False, False),
+    ('UINT_network', 2, False, True), ('INT_network', 2, True, True), ('UDINT_network', 4, False, True), ('DINT_network', 4, True, True),
+]
+
+
+def scalar_specs():
+    out = []
+    for cls, n, signed, big in SCALARS:
+        lo, hi = (-(1 << (8 * n - 1)), (1 << (8 * n - 1)) - 1) if signed else (0, (1 << (8 * n)) - 1)
+        enc = ('be(value, %d)' % n) if big else ('le(value, %d)' % n)
+        out.append(Spec('%s.produce' % cls, (P, 'TYPE.produce'), params={'value': 'Int'}, cls_name=cls,
+                        ensures=[('layout: %d byte %s %s-endian twos complement' % (n, 'signed' if signed else 'unsigned', 'big' if big else 'little'),
+                                  'result == ' + enc), ('size', 'len(result) == %d' % n)],
+                        raises={'struct.error': 'not (%d <= value <= %d)' % (lo, hi)},
+                        refuses=[('out-of-range', 'not (%d <= value <= %d)' % (lo, hi))], accepts=[('in-range', '%d <= value <= %d' % (lo, hi))],
+                        modifies=[], hints=dict(funcs=WS.FUNCS),
+                        note='TYPE.produce with cls = %s: struct_format read from the class constant in the AST' % cls))
+    out.append(Spec('BOOL.produce', (P, 'BOOL.produce'), params={'value': 'Int'}, requires='0 <= value <= 255',
+                    ensures=[('layout: 0x00 for false, 0xFF for any other value', 'result == (bytes_of(0) if value == 0 else bytes_of(255))')],
+                    raises={}, modifies=[], inline=['produce'], hints=dict(funcs=WS.FUNCS)))
+    return out
+
+
+def string_value(eng, name, st):
+    """value = {string: text, length?: int or None}"""
+    st = st.clone()
+    rid = eng.new_id()
+    s = SeqV(z3.Const('_g_string', IntSeq), 'str')
+    j = z3.Int('sj')
+    st.pc.append(z3.ForAll([j], z3.Implies(z3.And(0 <= j, j < z3.Length(s.t)), z3.And(s.t[j] >= 0, s.t[j] < 256))))
+    isn = z3.Bool('_g_length.is_none')
+    ln = UnionV([(isn, NONE), (z3.Not(isn), IntV(z3.Int('_g_length')))])
+    st.heap[(rid, 'string')] = (z3.BoolVal(True), s)
+    st.heap[(rid, 'length')] = (z3.Bool('_g_length_given'), ln)
+    st.heap[(rid, '__closed__')] = True
+    st.heap[(rid, '__keys__')] = ('string', 'length')
+    eng.init_vals['_g_string'] = SeqV(s.t, 'bytes')          # iso-8859-1: one byte per code point
+    eng.init_vals['_g_length'] = ln
+    eng.init_vals['_g_length_given'] = BoolV(z3.Bool('_g_length_given'))
+    eng.tracked_refs.add(rid)
+    return RefV(rid, 'rec'), st
+
+
+def string_specs():
+    defs = dict(L='_g_length if (_g_length_given and _g_length is not None) else len(_g_string)',
+                BODY='(_g_string[:L] if len(_g_string) >= L else _g_string + zeros(L - len(_g_string)))')
+    ss = Spec('SSTRING.produce', (P, 'SSTRING.produce'), params={'value': string_value}, defs=defs,
+              requires='implies(_g_length_given and _g_length is not None, _g_length >= 0)',
+              ensures=[('layout: one length byte, then the string truncated / NUL-filled to that length', 'result == u8(L) + BODY')],
+              raises={'AssertionError': 'L >= 256'}, refuses=[('too-long', 'L >= 256')], accepts=[('fits', 'L < 256')],
+              modifies=['value.length'], inline=['produce'], hints=dict(funcs=WS.FUNCS))
+    s = Spec('STRING.produce', (P, 'STRING.produce'), params={'value': string_value}, defs=defs,
+             requires='implies(_g_length_given and _g_length is not None, _g_length >= 0)',
+             ensures=[('layout: 16-bit length, the string truncated / NUL-filled to that length, one pad byte iff the length is odd',
+                       'result == u16(L) + pad_even(BODY)')],
+             raises={'AssertionError': 'L >= 65536'}, refuses=[('too-long', 'L >= 65536')], accepts=[('fits', 'L < 65536')],
+             modifies=['value.length'], inline=['produce'], hints=dict(funcs=WS.FUNCS))
+    return [ss, s]
+
+
+def octets_identity(eng, recv, args, kw, st, n):
+    """ASSUMED: octets_encode(bytes-like) returns the same bytes"""
+    v = args[0]
+    if not isinstance(v, SeqV):
+        raise Unsupported('octets_encode of %r' % (v,))
+    yield st, SeqV(v.t, 'bytes')
+
+
+def enip_data(eng, name, st):
+    st = st.clone()
+    rid, cid = eng.new_id(), eng.new_id()
+    ctx = SeqV(z3.Const('_g_context', IntSeq), 'bytearray')
+    st.heap[(cid, 'input')] = (z3.BoolVal(True), ctx)
+    st.heap[(cid, '__closed__')] = True
+    st.heap[(cid, '__keys__')] = ('input',)
+    flds = {'command': IntV(z3.Int('_g_command')), 'session_handle': IntV(z3.Int('_g_session')), 'status': IntV(z3.Int('_g_status')),
+            'options': IntV(z3.Int('_g_options')), 'sender_context': RefV(cid, 'rec')}
+    for k, v in flds.items():
+        st.heap[(rid, k)] = (z3.BoolVal(True), v)
+    pay = SeqV(z3.Const('_g_payload', IntSeq), 'bytearray')
+    st.heap[(rid, 'input')] = (z3.Bool('_g_has_input'), pay)
+    st.heap[(rid, '__closed__')] = True
+    st.heap[(rid, '__keys__')] = tuple(flds) + ('input',)
+    for k in ('_g_command', '_g_session', '_g_status', '_g_options'):
+        eng.init_vals[k] = IntV(z3.Int(k))
+    eng.init_vals['_g_context'] = SeqV(ctx.t, 'bytes')
+    eng.init_vals['_g_payload'] = SeqV(pay.t, 'bytes')
+    eng.init_vals['_g_has_input'] = BoolV(z3.Bool('_g_has_input'))
+    return RefV(rid, 'rec'), st
+
+
+def enip_encode_spec():
+    return Spec('enip_encode', (P, 'enip_encode'), params={'data': enip_data},
+                requires='0 <= _g_command <= 0xffff and 0 <= _g_session <= 0xffffffff and 0 <= _g_status <= 0xffffffff and 0 <= _g_options <= 0xffffffff '
+                         'and len(_g_payload) <= 0xffff',
+                defs=dict(PAY='_g_payload if _g_has_input else bytes_of()'),
+                ensures=[('layout: 24-byte encapsulation header with length == len(payload), then the payload',
+                          'result == u16(_g_command) + u16(len(PAY)) + u32(_g_session) + u32(_g_status) + _g_context + u32(_g_options) + PAY')],
+                raises={}, modifies=[], inline=['produce'], callees={'octets_encode': octets_identity},
+                hints=dict(funcs=WS.FUNCS),
+                note='octets_encode by assumed contract (identity on byte strings)')
+
+
+
+
+# ---- records for produce() contracts ---------------------------------------------------------------
+def build_rec(eng, st, schema, track=False):
+    """schema: {field: ('int', ghost) | ('optint', ghost) | ('bytes', ghost) | ('ints', ghost) | ('opaque', ghost) | ('const', v)
+                       | ('maybe', present-ghost, inner) | {nested schema}}"""
+    rid = eng.new_id()
+    keys = []
+    for k, sp in schema.items():
+        present = z3.BoolVal(True)
+        if isinstance(sp, tuple) and sp[0] == 'maybe':
+            present = z3.Bool(sp[1])
+            eng.init_vals[sp[1]] = BoolV(present)
+            sp = sp[2]
+        if isinstance(sp, dict):
+            v, st = build_rec(eng, st, sp)
+        elif sp[0] == 'int':
+            v = IntV(z3.Int(sp[1]))
+            eng.init_vals[sp[1]] = v
+        elif sp[0] == 'bytes':
+            v = SeqV(z3.Const(sp[1], IntSeq), 'bytearray')
+            eng.init_vals[sp[1]] = SeqV(v.t, 'bytes')
+        elif sp[0] == 'ints':
+            v = SeqV(z3.Const(sp[1], IntSeq), 'list')
+            eng.init_vals[sp[1]] = v
+        elif sp[0] == 'opaque':
+            v = OpaqueV(z3.Const(sp[1], USort), sp[1])
+            eng.init_vals[sp[1]] = v
+        elif sp[0] == 'const':
+            v = sp[1] if hasattr(sp[1], '__class__') and sp[1].__class__.__module__.startswith('pyvc') else IntV(sp[1])
+        else:
+            raise Unsupported('schema %r' % (sp,))
+        st.heap[(rid, k)] = (present, v)
+        keys.append(k)
+    st.heap[(rid, '__closed__')] = True
+    st.heap[(rid, '__keys__')] = tuple(keys)
+    if track:
+        eng.tracked_refs.add(rid)
+    return RefV(rid, 'rec'), st
+
+
+def rec_param(schema):
+    def build(eng, name, st):
+        for g in ('_g_epath', '_g_typed', '_g_statusbytes', '_g_routepath'):
+            eng.init_vals[g] = SeqV(z3.Const(g, IntSeq), 'bytes')
+        return build_rec(eng, st.clone(), schema, track=True)
+    return build
+
+
+def opaque_callee(ghost):
+    """ASSUMED contract of a nested producer: returns some byte string (named by a ghost constant)"""
+    def call(eng, recv, args, kw, st, n):
+        v = SeqV(z3.Const(ghost, IntSeq), 'bytes')
+        eng.init_vals.setdefault(ghost, v)
+        yield st, v
+    return call
+
+
+NESTED = {'EPATH.produce': opaque_callee('_g_epath'), 'typed_data.produce': opaque_callee('_g_typed'), 'status.produce': opaque_callee('_g_statusbytes'),
+          'route_path.produce': opaque_callee('_g_routepath'), 'EPATH_padded.produce': opaque_callee('_g_routepath')}
+L = "server/enip/logix.py"
+
+
+def logix_produce_specs():
+    def mk(name, schema, requires, ensures):
+        return Spec('Logix.produce[%s]' % name, (L, 'Logix.produce'), params={'data': rec_param(schema)}, requires=requires,
+                    ensures=[('layout', ensures)], raises={}, modifies=['data.service', 'data.write_tag', 'data.write_frag'],
+                    callees=NESTED, inline=['produce'], hints=dict(funcs=WS.FUNCS),
+                    note='nested EPATH / typed_data / status producers by assumed contract (opaque byte strings); scalar producers inlined')
+    path = ('opaque', '_g_path')
+    specs = [
+        mk('read_tag request', {'service': ('maybe', '_g_service_given', ('const', 0x4c)), 'path': path, 'read_tag': {'elements': ('int', '_g_elements')}},
+           '0 <= _g_elements <= 0xffff', 'result == u8(0x4c) + _g_epath + u16(_g_elements)'),
+        mk('read_frag request', {'service': ('maybe', '_g_service_given', ('const', 0x52)), 'path': path,
+                                 'read_frag': {'elements': ('int', '_g_elements'), 'offset': ('int', '_g_offset')}},
+           '0 <= _g_elements <= 0xffff and 0 <= _g_offset <= 0xffffffff', 'result == u8(0x52) + _g_epath + u16(_g_elements) + u32(_g_offset)'),
+        mk('write_tag request', {'service': ('maybe', '_g_service_given', ('const', 0x4d)), 'path': path,
+                                 'write_tag': {'type': ('int', '_g_type'), 'data': ('ints', '_g_data'), 'elements': ('maybe', '_g_elements_given', ('int', '_g_elements'))}},
+           '0 <= _g_type <= 0xffff and len(_g_data) <= 0xffff and 0 <= _g_elements <= 0xffff',
+           'result == u8(0x4d) + _g_epath + u16(_g_type) + u16(_g_elements if _g_elements_given else len(_g_data)) + _g_typed'),
+        mk('write_frag request', {'service': ('maybe', '_g_service_given', ('const', 0x53)), 'path': path,
+                                  'write_frag': {'type': ('int', '_g_type'), 'data': ('ints', '_g_data'), 'elements': ('int', '_g_elements'),
+                                                 'offset': ('maybe', '_g_offset_given', ('int', '_g_offset'))}},
+           '0 <= _g_type <= 0xffff and 0 <= _g_elements <= 0xffff and 0 <= _g_offset <= 0xffffffff',
+           'result == u8(0x53) + _g_epath + u16(_g_type) + u16(_g_elements) + u32(_g_offset if _g_offset_given else 0) + _g_typed'),
+    ]
+    for svc, ctx in ((0xcc, 'read_tag'), (0xd2, 'read_frag')):
+        specs.append(mk('%s reply' % ctx, {'service': ('const', svc), 'status': ('int', '_g_status'), ctx: {'type': ('int', '_g_type'), 'data': ('ints', '_g_data')}},
+                        '0 <= _g_type <= 0xffff and 0 <= _g_status <= 255',
+                        'result == u8(%d) + bytes_of(0) + _g_statusbytes + ((u16(_g_type) + _g_typed) if _g_status in (0x00, 0x06) else bytes_of())' % svc))
+    for svc, ctx in ((0xcd, 'write_tag'), (0xd3, 'write_frag')):
+        specs.append(mk('%s reply' % ctx, {'service': ('const', svc), 'status': ('int', '_g_status')}, '0 <= _g_status <= 255',
+                        'result == u8(%d) + bytes_of(0) + _g_statusbytes' % svc))
+    return specs
+
+
+def unconnected_send_specs():
+    req = {'service': ('const', 0x52), 'path': ('opaque', '_g_path'), 'priority': ('int', '_g_priority'), 'timeout_ticks': ('int', '_g_ticks'),
+           'request': {'input': ('bytes', '_g_request')}, 'route_path': ('maybe', '_g_has_route', ('opaque', '_g_route'))}
+    callees = dict(NESTED)
+    callees['octets_encode'] = octets_identity
+    s1 = Spec('unconnected_send.produce[request]', (P, 'unconnected_send.produce'), params={'data': rec_param(req)},
+              requires='0 <= _g_priority <= 255 and 0 <= _g_ticks <= 255 and len(_g_request) <= 0xffff',
+              ensures=[('layout: 0x52, path, priority, ticks, request length, request, pad byte iff odd, padded route path',
+                        'result == u8(0x52) + _g_epath + u8(_g_priority) + u8(_g_ticks) + u16(len(_g_request)) + pad_even(_g_request) + _g_routepath')],
+              raises={}, modifies=[], callees=callees, inline=['produce'], hints=dict(funcs=WS.FUNCS))
+    rpy = {'service': ('const', 0xd2), 'status': ('int', '_g_status'), 'request': {'input': ('bytes', '_g_request')}}
+    s2 = Spec('unconnected_send.produce[reply]', (P, 'unconnected_send.produce'), params={'data': rec_param(rpy)},
+              requires='0 <= _g_status <= 255',
+              ensures=[('error reply: 0xD2, reserved, status; otherwise the bare encapsulated reply',
+                        'result == ((u8(0xd2) + bytes_of(0) + _g_statusbytes) if _g_status != 0 else _g_request)')],
+              raises={}, modifies=[], callees=callees, inline=['produce'], hints=dict(funcs=WS.FUNCS))
+    return [s1, s2]
+
+
+
+
+D = "server/enip/defaults.py"
+NCP_SMALL = "(redundant << 15) + (type << 13) + (priority << 10) + (variable << 9) + size"
+NCP_LARGE = "(redundant << 31) + (type << 29) + (priority << 26) + (variable << 25) + size"
+NCP_RANGE = "0 <= variable <= 1 and 0 <= priority <= 3 and 0 <= type <= 3 and 0 <= redundant <= 1"
+
+
+def connection_specs():
+    out = []
+    for large in (False, True):
+        lim = 0xffff if large else 0x1ff
+        enc = NCP_LARGE if large else NCP_SMALL
+        out.append(Spec('Connection.__init__[%s, fully specified]' % ('large' if large else 'small'), (D, 'Connection.__init__'),
+                        params={'large': ('Const', large), 'size': 'Int', 'variable': 'Int', 'priority': 'Int', 'type': 'Int', 'redundant': 'Int', 'NCP': 'None'},
+                        requires=NCP_RANGE + ' and 1 <= size <= %d' % lim,
+                        ensures=[('layout: network connection parameters of the %s Forward Open' % ('Large' if large else 'small'), 'self._NCP == ' + enc),
+                                 ('large flag', 'self._large == %s' % large)],
+                        raises={}, modifies=['self._NCP', 'self._large', 'self.other'], fields={},
+                        note='bit layout from Vol 1 3-5.5.1.1 (quoted in the class docstring)'))
+        out.append(Spec('Connection.__init__[%s, fully specified, stale NCP supplied]' % ('large' if large else 'small'), (D, 'Connection.__init__'),
+                        params={'large': ('Const', large), 'size': 'Int', 'variable': 'Int', 'priority': 'Int', 'type': 'Int', 'redundant': 'Int', 'NCP': 'Int'},
+                        requires=NCP_RANGE + ' and 1 <= size <= %d and NCP >= 0' % lim,
+                        ensures=[('fully specified parameters are re-encoded (a supplied NCP of the other size class is not kept)', 'self._NCP == ' + enc)],
+                        raises={}, modifies=['self._NCP', 'self._large', 'self.other'], fields={},
+                        note='this is what the `large` setter relies on when it switches a connection between small and large'))
+        g = dict(size='_g_size', variable='_g_variable', priority='_g_priority', type='_g_type', redundant='_g_redundant')
+        enc_g = enc
+        rng_g = NCP_RANGE + ' and 1 <= size <= %d' % lim
+        for k, v in g.items():
+            enc_g = enc_g.replace(k, v)
+            rng_g = rng_g.replace(k, v)
+        out.append(Spec('Connection.decoding[%s]' % ('large' if large else 'small'), (D, 'Connection.decoding'),
+                        params=dict(('_g_' + k, 'Int') for k in g),
+                        fields={'_NCP': 'Int', '_large': ('Const', large), 'other': ('Rec', {})},
+                        requires=rng_g + ' and self._NCP == ' + enc_g,
+                        ensures=[('decode(encode(fields)) == fields',
+                                  'result.size == _g_size and result.variable == _g_variable and result.priority == _g_priority and '
+                                  'result.type == _g_type and result.redundant == _g_redundant and result.NCP == self._NCP and result.large == %s' % large)],
+                        raises={}, modifies=[]))
+    return out
+
+
+
+
+# ---- EPATH.produce ------------------------------------------------------------------------------------
+from pyvc.vals import RecProto, ListV, TupV
+from pyvc.calls import pack_int
+
+EP_N = z3.Int('_g_nseg')
+KINDS = ['symbolic', 'class', 'instance', 'connection', 'attribute', 'element', 'port']
+HAS = dict((k, z3.Function('has_' + k, z3.IntSort(), z3.BoolSort())) for k in KINDS)
+VAL = dict((k, z3.Function('val_' + k, z3.IntSort(), z3.IntSort())) for k in KINDS if k != 'symbolic')
+SYM = z3.Function('val_symbolic', z3.IntSort(), IntSeq)
+LINK_IS_INT = z3.Function('link_is_int', z3.IntSort(), z3.BoolSort())
+LINK_I = z3.Function('link_int', z3.IntSort(), z3.IntSort())
+LINK_S = z3.Function('link_str', z3.IntSort(), IntSeq)
+EPF = z3.Function('EPF', z3.IntSort(), IntSeq)
+BASE = {'class': 0x20, 'instance': 0x24, 'connection': 0x2c, 'attribute': 0x30, 'element': 0x28}
+
+
+def cat(*ts):
+    ts = [t for t in ts]
+    return ts[0] if len(ts) == 1 else z3.Concat(*ts)
+
+
+def unit(x):
+    return z3.Unit(x if z3.is_expr(x) else z3.IntVal(x))
+
+
+def pad(t):
+    return z3.If(z3.Length(t) % 2 == 1, z3.Concat(t, unit(0)), t)
+
+
+def seg_layout(i):
+    """the encoding of segment i, written from the EPATH segment layout tables"""
+    u16 = lambda x: pack_int('<H', x)[0]
+    u32 = lambda x: pack_int('<I', x)[0]
+    sym = cat(unit(0x91), unit(z3.Length(SYM(i))), pad(SYM(i)))
+    p = VAL['port'](i)
+    small = p < 15
+    port_int = z3.If(small, cat(unit(p), unit(LINK_I(i))), cat(unit(0x0f), u16(p), unit(LINK_I(i))))
+    ls = LINK_S(i)
+    port_str = z3.If(small, cat(unit(p + 0x10), unit(z3.Length(ls)), pad(ls)), cat(unit(0x1f), unit(z3.Length(ls)), u16(p), pad(ls)))
+    out = z3.If(LINK_IS_INT(i), port_int, port_str)
+    for k, base in BASE.items():
+        v = VAL[k](i)
+        enc = z3.If(v <= 0xff, cat(unit(base), unit(v)),
+                    z3.If(v <= 0xffff, cat(unit(base + 1), unit(0), u16(v)), cat(unit(base + 2), unit(0), u32(v))))
+        out = z3.If(HAS[k](i), enc, out)
+    return z3.If(HAS['symbolic'](i), sym, out)
+
+
+def segment_list(eng, st):
+    i = z3.Int('ei')
+    j = z3.Int('ej')
+    st.pc.append(EP_N >= 0)
+    # exactly one kind per segment; value domains of the CIP segment formats
+    one = z3.Sum([z3.If(HAS[k](i), 1, 0) for k in KINDS]) == 1
+    dom = z3.And(
+        z3.Implies(HAS['symbolic'](i), z3.And(z3.Length(SYM(i)) <= 255,
+                                              z3.ForAll([j], z3.Implies(z3.And(0 <= j, j < z3.Length(SYM(i))), z3.And(SYM(i)[j] >= 0, SYM(i)[j] <= 255))))),
+        z3.Implies(HAS['port'](i), z3.And(VAL['port'](i) >= 1, VAL['port'](i) <= 0xffff, LINK_I(i) >= 0, LINK_I(i) <= 255, z3.Length(LINK_S(i)) <= 255,
+                                          z3.ForAll([j], z3.Implies(z3.And(0 <= j, j < z3.Length(LINK_S(i))), z3.And(LINK_S(i)[j] >= 0, LINK_S(i)[j] <= 255))))),
+        *[z3.Implies(HAS[k](i), z3.And(VAL[k](i) >= 0, VAL[k](i) <= (0xffffffff if k == 'element' else 0xffff))) for k in BASE])
+    st.pc.append(z3.ForAll([i], z3.Implies(z3.And(0 <= i, i < EP_N), z3.And(one, dom))))
+    st.pc.append(EPF(0) == z3.Empty(IntSeq))
+    st.pc.append(z3.ForAll([i], z3.Implies(z3.And(0 <= i, i < EP_N), EPF(i + 1) == z3.Concat(EPF(i), seg_layout(i)))))
+
+    def get(k):
+        f = {}
+        f['symbolic'] = (HAS['symbolic'](k), SeqV(SYM(k), 'str'))
+        for kind in BASE:
+            f[kind] = (HAS[kind](k), IntV(VAL[kind](k)))
+        f['port'] = (HAS['port'](k), IntV(VAL['port'](k)))
+        f['link'] = (HAS['port'](k), UnionV([(LINK_IS_INT(k), IntV(LINK_I(k))), (z3.Not(LINK_IS_INT(k)), SeqV(LINK_S(k), 'str'))]))
+        return RecProto(f)
+    return ListV(EP_N, get, tag='segments')
+
+
+def epath_data(eng, name, st):
+    st = st.clone()
+    segs = segment_list(eng, st)
+    rid = eng.new_id()
+    st.heap[(rid, 'segment')] = (z3.BoolVal(True), segs)
+    st.heap[(rid, '__closed__')] = True
+    st.heap[(rid, '__keys__')] = ('segment',)
+    eng.init_vals['_g_nseg'] = IntV(EP_N)
+    return RefV(rid, 'rec'), st
+
+
+EP_FUNCS = dict(WS.FUNCS)
+EP_FUNCS['EPF'] = lambda pe, k: SeqV(EPF(to_int_(k)), 'bytes')
+
+
+def to_int_(v):
+    from pyvc.pure import to_int
+    return to_int(v)
+
+
+def epath_specs():
+    out = []
+    for cls, single, padsize in (('EPATH', False, False), ('EPATH_padded', False, True), ('EPATH_single', True, False)):
+        if single:
+            ens = 'result == EPF(_g_nseg)'
+        else:
+            ens = 'result == u8(len(EPF(_g_nseg)) // 2) + %sEPF(_g_nseg)' % ('bytes_of(0) + ' if padsize else '')
+        out.append(Spec('%s.produce' % cls, (P, 'EPATH.produce'), params={'data': epath_data}, cls_name=cls,
+                        requires='len(EPF(_g_nseg)) // 2 <= 255',
+                        loops={0: Loop(index='K', invariant=[('encoded-so-far', 'result == EPF(K)'), ('word-aligned', 'len(EPF(K)) % 2 == 0')])},
+                        ensures=[('layout: size in words%s, then every segment by the segment format tables' % (', pad byte' if padsize else ''), ens)],
+                        raises={}, modifies=[], inline=['produce'], hints=dict(funcs=EP_FUNCS),
+                        replay=replay_epath,
+                        note='all segment kinds: symbolic (odd/even pad), 8/16-bit class/instance/attribute/connection, 8/16/32-bit element, '
+                             'port < 15 / extended port with numeric or address link; SEGMENTS dict unrolled from the class constant'))
+    return out
+
+
+def replay_epath(model, obligation):
+    import cpppo
+    from cpppo.server.enip import parser
+    segs = all_segments(True)
+    for p in [[s] for s in segs] + [[segs[0], segs[5]], [segs[20], segs[-1]]]:
+        for cls, padded, single in ((parser.EPATH, False, False), (parser.EPATH_padded, True, False)):
+            want = wire.epath(p, padded=padded)
+            try:
+                got = bytes(cls.produce(dd({'segment': [seg_dict(s) for s in p]})))
+            except Exception as e:
+                got = 'raised %s' % type(e).__name__
+            if got != want:
+                return dict(confirmed=True, function='cpppo.server.enip.parser.%s.produce' % cls.__name__, input=repr(p), observed=repr(got), required=repr(want))
+    return dict(confirmed=False)
+
+
 def contracts(repo):
-    return []
+    return (scalar_specs() + string_specs() + [enip_encode_spec()] + logix_produce_specs() + unconnected_send_specs() + connection_specs()
+            + epath_specs())
